@@ -86,6 +86,21 @@ def register(reg):
                  # the value absorbed is the one the run now ends with
                  'implies(result, v == self.datum + self.repeat * self.stride)'],
         canaries=['result', 'not result']))
+    # float runs (real-number model): a value is taken into a run only if it is the extrapolated position to within one
+    # unit of binary64 relative rounding (2**-52), so position i of the run reproduces what was added "to within rounding"
+    FITEM = KRec('RLEItem', datum=Real, stride=Real, repeat=Int)
+    EXPV = '(old(self.datum) + old(self.stride) * (old(self.repeat) + 1))'
+    reg.add(Contract(
+        F, 'RLEItem.add', {'self': FITEM, 'v': Real}, name='RLEItem.add[float]', requires=['self.repeat >= 0', 'implies(self.repeat == 0, self.stride == 0)'],
+        returns=Bool, modifies=['self.stride', 'self.repeat'],
+        ensures=['implies(old(self.repeat) == 0, result and self.repeat == 1 and self.stride == v - self.datum)',
+                 'implies(result, self.repeat == old(self.repeat) + 1)',
+                 'implies(result and old(self.repeat) > 0, self.stride == old(self.stride))',
+                 'implies(not result, self.stride == old(self.stride) and self.repeat == old(self.repeat))',
+                 # absorbed only when within rounding of the extrapolated value; an exactly regular value is always absorbed
+                 'implies(result and old(self.repeat) > 0, abs(v - %s) * 4503599627370496 <= max(abs(v), abs(%s)))' % (EXPV, EXPV),
+                 'implies(old(self.repeat) > 0 and v == %s, result)' % EXPV],
+        canaries=['result', 'not result'], crosscheck=False), callable_=False)
     reg.add(Contract(
         F, 'RLEItem.values', {'self': ITEM}, requires=['self.repeat >= 0'], yields=Int,
         ensures=['len(out) == self.repeat + 1', 'forall(0, len(out), lambda t: out[t] == self.datum + t * self.stride)'],
